@@ -311,7 +311,9 @@ func c08BlankRefusal(w *fw.Worker, i int, r *fw.Rand) {
 	}{
 		{"Done", func(ctx context.Context) { c.blank.Done(ctx) }},
 		{"Value", func(ctx context.Context) { c.blank.Value(ctx, dials.NewType(inner.Type())) }},
-		{"SetSource", func(ctx context.Context) { c.blank.SetSource(ctx, &conc.Src{Name: "again", Init: e.RandLayer(r, 0, 0)}) }},
+		{"SetSource", func(ctx context.Context) {
+			c.blank.SetSource(ctx, &conc.Src{Name: "again", Init: e.RandLayer(r, 0, 0)})
+		}},
 	}
 	call := calls[r.Intn(len(calls))]
 	cctx, cancel := context.WithTimeout(ctx, 200*time.Millisecond)
